@@ -217,6 +217,13 @@ theorem c04_unarmed_timer_never_fires (s : Rq) (ci : Nat) : s.timeoutIfArmed fal
     late reply is still under way, to a later call: its reply would then be returned to the wrong call) -/
 theorem c04_request_id_counter_width : 2 ^ Gen.Client.requestIdBits = U32 := by decide
 
+/-- regenerated from `requestor.rs`: everything a call can wait for without bound — the shared write half, the transport,
+    the reply — is awaited inside the future that `timeout(self.request_timeout, …)` bounds; outside it a call awaits only the
+    pending map's lock, held by anybody for one insert or one remove. This is what makes `timeoutIfArmed` of the model
+    applicable to every call (`c04_timeout`): no admission control, reply channel or transport operation sits in front of
+    the clock. -/
+theorem c04_every_unbounded_wait_is_timed : Gen.Client.requestWaitsAreTimed = true := by decide
+
 /-- Concurrent calls on one stream (any number of clones) get distinct ids as long as no more than 2^32 are
     made: the k-th call is given id k. -/
 theorem c04_ids_distinct (n : Nat) (hn : n ≤ U32) :
@@ -341,6 +348,7 @@ end Selium.Client
 #print axioms Selium.Client.c04_late_reply_dropped
 #print axioms Selium.Client.c04_timeout
 #print axioms Selium.Client.c04_request_id_counter_width
+#print axioms Selium.Client.c04_every_unbounded_wait_is_timed
 #print axioms Selium.Client.c04_ids_distinct
 #print axioms Selium.Client.setState_getElem?
 #print axioms Selium.Client.setState_length
